@@ -530,6 +530,15 @@ class Evaluator:
         owner = self._attrib.get(len(self._frames) - 1)
         if owner is not None and kind == "return":
             kind = "return-inlined"   # the return of a helper is not an exit of the function its events are attributed to
+        if owner is not None:
+            # the event belongs to the function the helper was extracted from: `self` of that function stays reachable from it
+            for i in range(len(self._frames) - 1, -1, -1):
+                if i not in self._attrib:
+                    if _self is None:
+                        _self = self._frames[i][3]
+                    if cls_ctx is None:
+                        cls_ctx = self._frames[i][1]
+                    break
         ev = Event(
             self._seq, kind, st.pc, node, owner if owner is not None else fi.fq, cls_ctx,
             tuple(f[2] for f in self._frames if f[2] is not None), tuple(self._loops), data,
